@@ -9,6 +9,7 @@ a recorded program exactly.
 
 from __future__ import annotations
 
+import itertools
 import math
 import operator
 from collections import Counter
@@ -322,6 +323,9 @@ def _leaf_from_array(g, ins):
     # SerializableLock is a value (equal names are one lock), False means no lock
     if p["seed"] % 16 == 0:
         p["lock"] = False if p["seed"] % 32 == 0 else f"verif-lock-{p['seed'] % 3}"
+    elif p["seed"] % 8 == 3:
+        # the user hands over a read-only view of a buffer they can still write to
+        p["ro_view"] = True
     return p
 
 
@@ -330,6 +334,25 @@ def _leaf_np(p):
 
 
 SRC_LOG = None  # set to a list by checks that audit the user's source arrays
+RO_BASES = None  # set to a list by checks that later edit the writable bases of read-only views handed to from_array
+
+
+def edit_ro_bases():
+    """The user edits, in place, every buffer whose read-only view was handed to from_array. Returns how many."""
+    n = 0
+    for base in RO_BASES or []:
+        if base.size == 0:
+            continue
+        if base.dtype.kind == "b":
+            np.logical_not(base, out=base)
+        elif base.dtype.kind in "iufc":
+            base += 3
+        else:
+            continue
+        n += 1
+    if RO_BASES is not None:
+        del RO_BASES[:]
+    return n
 
 
 def _leaf_da(p):
@@ -337,6 +360,12 @@ def _leaf_da(p):
     if SRC_LOG is not None:
         SRC_LOG.append((a, a.copy()))
     kw = {}
+    if p.get("ro_view"):
+        base = a
+        if RO_BASES is not None:
+            RO_BASES.append(base)
+        a = base.view()
+        a.flags.writeable = False
     if p.get("lock") is not None:
         from dask.utils import SerializableLock
 
@@ -1664,6 +1693,42 @@ def _map_blocks_da(p, a):
 
 
 defop("map_blocks", 1, _g_map_blocks, lambda p, a: K.KERNELS[p["fn"]](a), _map_blocks_da, "blockwise map_blocks", w=3)
+
+
+def _g_map_blocks_local(g, ins):
+    (a,) = ins
+    need(a.kind in "fi" and a.ndim >= 1 and a.np.size > 0 and a.da is not None)
+    need(not isinstance(a.np, np.ma.MaskedArray))
+    ch = a.da.chunks
+    need(all(not (isinstance(c, float) and c != c) for dim in ch for c in dim))
+    if a.np.dtype.kind == "i":
+        need(float(np.abs(a.np.astype("f8")).max()) < 2**30)
+    # the advertised grid is part of the program: the kernel's result depends on the block boundaries
+    return {"chunks": [[int(c) for c in dim] for dim in ch], "dtype": g.rng.random() < 0.6}
+
+
+def _map_blocks_local_np(p, a):
+    out = np.empty_like(a)
+    offs = [np.concatenate([[0], np.cumsum(c)]).astype(int) for c in p["chunks"]]
+    if [int(o[-1]) for o in offs] != list(a.shape):
+        raise Skip("recorded grid does not tile the input")
+    for loc in itertools.product(*[range(len(c)) for c in p["chunks"]]):
+        sl = tuple(slice(int(offs[d][i]), int(offs[d][i + 1])) for d, i in enumerate(loc))
+        out[sl] = K.k_block_submax(a[sl])
+    return out
+
+
+def _map_blocks_local_da(p, a):
+    if [[int(c) for c in dim] for dim in a.chunks] != p["chunks"]:
+        raise Skip("input grid differs from the recorded one")
+    kw = {"dtype": a.dtype} if p["dtype"] else {}
+    return da().map_blocks(K.k_block_submax, a, **kw)
+
+
+# weight 0: only placed by checks as the ROOT consumer of a program (dask_array pushes slices/shuffles THROUGH a plain
+# map_blocks as if its function were position-wise - a documented design assumption - so a block-local kernel in the
+# middle of a program is outside what the optimizer promises; BELOW such a consumer the grid must be preserved)
+defop("map_blocks_local", 1, _g_map_blocks_local, _map_blocks_local_np, _map_blocks_local_da, "blockwise map_blocks", w=0)
 
 
 def _g_map_blocks2(g, ins):
